@@ -154,13 +154,15 @@ def check_C08(o, tier):
 
 def check_C15(o, tier):
     o.add_audit(core.audit("C15", tier == "thorough"))
-    http_check(o, tier, "C15", ["raw", "mix", "upload", "switches"], make_view(fields=("code",)), RULE % "raw, mix, upload, switches", monitors_prefix="C15.")
+    http_check(o, tier, "C15", ["raw", "mix", "upload", "switches", "refs", "isolation", "tags"], make_view(fields=("code",)),
+               RULE % "raw, mix, upload, switches, refs, isolation, tags", monitors_prefix="C15.", n_quick=150,
+               extra_monitors=("C16.outside-root", "C16.mount-without-source", "C03.list-error"))
 
 
 def check_C16(o, tier):
     o.add_audit(core.audit("C16", tier == "thorough"))
-    http_check(o, tier, "C16", ["isolation", "upload"], make_view(fields=("code", "loc", "dcd", "body")), RULE % "isolation, upload",
-               monitors_prefix="C16.", extra_monitors=("C08.cross-repo", "C07.refs-exact"))
+    http_check(o, tier, "C16", ["isolation", "upload", "refs"], make_view(fields=("code", "loc", "dcd", "body")), RULE % "isolation, upload, refs",
+               monitors_prefix="C16.", extra_monitors=("C08.cross-repo", "C07.refs-exact", "C15.routes-grammar"))
 
 
 def check_C10(o, tier):
